@@ -175,7 +175,7 @@ func runHostless(tape *simrt.Tape, keep bool) simrt.Outcome {
 	}
 	atk := vegeta.NewAttacker(opts...)
 	defer atk.Stop() // ends the refresh goroutine of a positive ttl
-	addr := []string{":80", ":8080", "127.0.0.1:81", "[::1]:82", "10.1.2.3:80"}[tape.Choose(5)]
+	addr := []string{":80", ":8080", "127.0.0.1:81", "[::1]:82", "10.1.2.3:80", "[fe80::1%lo]:80", "[fe80::2%eth0]:8080"}[tape.Choose(7)]
 	log.Addf("dns-ttl=%v dial %q", ttl, addr)
 	ctx, cancel := context.WithTimeout(context.Background(), 5*time.Second)
 	defer cancel()
